@@ -299,6 +299,9 @@ impl FR {
     }
     pub fn to_coq(&self) -> String {
         let f = match self {
+            // Connection.Blocked stands in for "a connection-class method on a channel": on
+            // channel 0 it is simply a Blocked notice
+            FR::Method(0, SM::Illegal(k, r)) if *k >= 18 => format!("FMethod 0 (MBlocked {})", coqfmt::string(r)),
             FR::Method(ch, m) => format!("FMethod {} {}", ch, m.to_coq()),
             FR::Header(ch, size, p) => format!("FHeader {} {} {}", ch, size, p),
             FR::Body(ch, b) => format!("FBody {} {}", ch, wrap(coqfmt::bytes_rle(b))),
